@@ -30,7 +30,7 @@
   verification tree): c with -n, c with a negated range, addr,$ beginning on the last line, `l` on a
   1-char unterminated line, N at end of input (POSIX: no print), missing newline of the last input line
   (output glue, G/H separator).
-  Not modelled: the script-text compiler (pickup_rex, get_text ...), r/R/W/Q/z/C commands, the k flag,
+  Not modelled: the script-text compiler (pickup_rex, get_text ...), R/W/Q/z/C commands, the k flag,
   the I modifier, -b extended addresses (first~step, addr,+N, addr,~N, 0,/re/).  CR-LF stripping IS
   modelled (`trimLine`).  The fields `ropened`, `rline`, `unspec` of the state are bookkeeping for the
   evidence (they mark POSIX-unspecified situations) and are never read by the executor.
@@ -86,6 +86,10 @@ inductive Op where
   | next
   | nextAppend
   | wfile (f : Str)
+  /-- `r file`: the file as it is found when the queue is flushed (`none` = cannot be opened: silently nothing).
+      The file system is not part of the state: read files are never written by the script (the generator keeps
+      `r` and `w` names apart), so the content is fixed for the run and travels with the command. -/
+  | readFile (f : Str) (content : Option Str)
   | branch (target : Nat)
   | tbranch (target : Nat)
   | subst (re rpl : Str) (g : Bool) (occ : Nat) (p : Bool) (w : Option Str)
@@ -502,6 +506,8 @@ def execCmd (m : Matcher) (quiet : Bool) (op : Op) (cready : Bool) (st : St) : S
     | [] => ({ st with ps := [] }, .over)      -- POSIX: quit without copying the pattern space to the output
     | l :: r => ({ st with input := r, ps := st.ps ++ l, lineno := st.lineno + 1, substDone := false }, .next)
   | .wfile f => (writeFile st f st.ps, .next)
+  -- link_append; emit_append/write_file copy the file at the end of the cycle, nothing if it cannot be opened
+  | .readFile _ content => ({ st with appq := st.appq ++ [content.getD []] }, .next)
   | .branch t => (st, .goto t)
   | .tbranch t => if st.substDone then ({ st with substDone := false }, .goto t) else (st, .next)
   | .subst re rpl g occ p w =>
